@@ -48,3 +48,117 @@ for _nm, _sum in (("inarea_weighted_connectivity", "C[i]*self.adjacency[i,j]"),
     _c.region = "body"
     _c.required_asserts = []
     _c.rtc_py = True
+
+
+# ============================================================================ core: resistive-network measures in Python (C18)
+# "admittive degree and clustering equal the direct evaluation of their defining sums"; effective resistance from the
+# pseudo-inverse.  Real-valued networks (flagComplex == 0); the complex branch is left to the bounded layer.
+# assumed contracts of dependencies: get_R() / get_admittance() / admittive_degree() / degree() return the stored N x N
+# matrices / length-N vectors (their own content is the subject of the REPINV / GUARD slices and of bounded/c18.py).
+_RN = "core/resistive_network.py"
+# (a) effective resistance: R[a,a] - R[a,b] - R[b,a] + R[b,b], exactly 0 for a == b
+_c = _K("ResNetwork.effective_resistance[formula]", _RN, lang="py", func="ResNetwork.effective_resistance", props=("C18",),
+        py_mode=True, vectors=True,
+        inputs={"a": "int", "b": "int", "RR": "arr:float64:2", "NN": "int", "self.flagComplex": "bool"},
+        requires=["NN>=1", "0<=a and a<NN and 0<=b and b<NN", "shape(RR,0)==NN and shape(RR,1)==NN", "self.flagComplex==0"],
+        call_facts={"self.get_R": {"returns": "arr:float64:2", "ensures": ["same_array(result, RR)", "shape(result,0)==NN and shape(result,1)==NN"]}},
+        ensures=["result==ite(a==b, 0.0, RR[a,a]-RR[a,b]-RR[b,a]+RR[b,b])"], checks=("shape", "bounds"))
+_c.region = "body"
+_c.required_asserts = []
+_c.rtc_py = True
+# (b) average neighbours admittive degree: sum_j adj[i,j] * ad[j] / ad[i]
+_c = _K("ResNetwork.average_neighbors_admittive_degree[formula]", _RN, lang="py", func="ResNetwork.average_neighbors_admittive_degree",
+        props=("C18",), py_mode=True, vectors=True,
+        inputs={"self.adjacency": "arr:int8:2", "AD": "arr:float64:1", "NN": "int"},
+        requires=["NN>=1", "shape(self.adjacency,0)==NN and shape(self.adjacency,1)==NN", "shape(AD,0)==NN",
+                  "all(AD[q]!=0 for q in range(NN))"],
+        call_facts={"self.admittive_degree": {"returns": "arr:float64:1", "ensures": ["same_array(result, AD)", "shape(result,0)==NN"]}},
+        ensures=["shape(result,0)==NN",
+                 "all(result[q]*AD[q]==fsum(lambda j: self.adjacency[q,j]*AD[j], NN) for q in range(NN))"],
+        checks=("shape", "bounds"))
+_c.region = "body"
+_c.required_asserts = []
+_c.rtc_py = True
+# (c) admittive degree: column sums of the admittance matrix
+_c = _K("ResNetwork.admittive_degree[formula]", _RN, lang="py", func="ResNetwork.admittive_degree", props=("C18",),
+        py_mode=True, vectors=True, inputs={"YY": "arr:float64:2", "NN": "int"},
+        requires=["NN>=1", "shape(YY,0)==NN and shape(YY,1)==NN"],
+        call_facts={"self.get_admittance": {"returns": "arr:float64:2", "ensures": ["same_array(result, YY)", "shape(result,0)==NN and shape(result,1)==NN"]}},
+        ensures=["shape(result,0)==NN", "all(result[q]==fsum(lambda i: YY[i,q], NN) for q in range(NN))"],
+        checks=("shape", "bounds"))
+_c.region = "body"
+_c.required_asserts = []
+_c.rtc_py = True
+# (d) local admittive clustering: ac_i = sum_{j,k} Y[i,j] Y[i,k] Y[j,k] / (ad_i (d_i - 1)), 0 for d_i == 1
+#     ghost partial sums in the order the loops accumulate them
+_T3 = "YY[i,j]*YY[i,k]*YY[j,k]"
+_c = _K("ResNetwork.local_admittive_clustering[formula]", _RN, lang="py", func="ResNetwork.local_admittive_clustering", props=("C18",),
+        py_mode=True, vectors=True,
+        inputs={"YY": "arr:float64:2", "AD": "arr:float64:1", "DG": "arr:int64:1", "self.N": "int", "self.flagComplex": "bool"},
+        requires=["self.N>=1", "shape(YY,0)==self.N and shape(YY,1)==self.N", "shape(AD,0)==self.N", "shape(DG,0)==self.N",
+                  "self.flagComplex==0"],
+        ghost={"LU": ("int", "int", "int", "float"), "LT": ("int", "int", "float")},
+        defs=["all(LT(i,0)==0.0 for i in range(self.N))",
+              "all(LU(i,j,0)==LT(i,j) for i in range(self.N) for j in range(self.N))",
+              "all(LU(i,j,k+1)==LU(i,j,k)+" + _T3 + " for i in range(self.N) for j in range(self.N) for k in range(self.N))",
+              "all(LT(i,j+1)==LU(i,j,self.N) for i in range(self.N) for j in range(self.N))"],
+        call_facts={"self.get_admittance": {"returns": "arr:float64:2", "ensures": ["same_array(result, YY)", "shape(result,0)==self.N and shape(result,1)==self.N"]},
+                    "self.admittive_degree": {"returns": "arr:float64:1", "ensures": ["same_array(result, AD)", "shape(result,0)==self.N"]},
+                    "self.degree": {"returns": "arr:int64:1", "ensures": ["same_array(result, DG)", "shape(result,0)==self.N"]}},
+        loops={"i": ["shape(ac,0)==self.N",
+                     "all(ac[q]==ite(DG[q]==1, 0.0, LT(q,self.N)/(AD[q]*(DG[q]-1))) for q in range(i))"],
+               "i.j": ["dummy==LT(i,j)"],
+               "i.j.k": ["dummy==LU(i,j,k)"]},
+        ensures=["shape(result,0)==self.N",
+                 "all(result[q]==ite(DG[q]==1, 0.0, LT(q,self.N)/(AD[q]*(DG[q]-1))) for q in range(self.N))"],
+        checks=("shape", "bounds"))
+_c.region = "body"
+_c.required_asserts = []
+_c.rtc_py = True
+
+
+# ============================================================================ core: n.s.i. distance-based measures in Python (C03, C02)
+# "measures equal their definitions": closeness_i = W / sum_j w_j d*_ij, harmonic closeness_i = sum_j w_j / d*_ij / W,
+# global efficiency = sum_ij w_i w_j / d*_ij / W^2 with the n.s.i. distance d*_ij = d_ij + delta_ij; n.s.i. global clustering =
+# sum_i w_i C*_i / W.
+# assumed contracts of dependencies: path_lengths() returns the N x N distance matrix PL, nsi_local_clustering() the vector CL
+# (kernels / igraph, bounded layer); assumed: the sums that are divided by are non-zero (positive weights and distances).
+_NW = "core/network.py"
+_DS = "(PL[q,j]+ite(q==j,1.0,0.0))"
+_NSI_IN = {"PL": "arr:float64:2", "self.node_weights": "arr:float64:1", "self.total_node_weight": "float", "self.N": "int"}
+_NSI_RQ = ["self.N>=1", "shape(PL,0)==self.N and shape(PL,1)==self.N", "shape(self.node_weights,0)==self.N"]
+_NSI_CF = {"self.path_lengths": {"returns": "arr:float64:2", "ensures": ["same_array(result, PL)", "shape(result,0)==self.N and shape(result,1)==self.N"]}}
+for _nm, _rq, _ens in (
+        ("nsi_closeness", [f"all(fsum(lambda j: {_DS}*self.node_weights[j], self.N)!=0 for q in range(self.N))"],
+         [f"all(result[q]==self.total_node_weight/fsum(lambda j: {_DS}*self.node_weights[j], self.N) for q in range(self.N))"]),
+        ("nsi_harmonic_closeness", [f"all({_DS}!=0 for q in range(self.N) for j in range(self.N))", "self.total_node_weight!=0"],
+         [f"all(result[q]*self.total_node_weight==fsum(lambda j: 1.0/{_DS}*self.node_weights[j], self.N) for q in range(self.N))"])):
+    _c = _K(f"Network.{_nm}[formula]", _NW, lang="py", func=f"Network.{_nm}", props=("C03", "C02"), py_mode=True, vectors=True,
+            inputs=dict(_NSI_IN), requires=_NSI_RQ + _rq, call_facts=_NSI_CF,
+            ensures=["shape(result,0)==self.N"] + _ens, checks=("shape", "bounds"))
+    _c.region = "body"
+    _c.required_asserts = []
+    _c.rtc_py = True
+    _c.timeout_ms = 90000       # the quotient by a symbolic sum takes 1-5 s; budget sized for a loaded machine
+_c = _K("Network.nsi_global_efficiency[formula]", _NW, lang="py", func="Network.nsi_global_efficiency", props=("C03", "C02"),
+        py_mode=True, vectors=True, inputs=dict(_NSI_IN),
+        requires=_NSI_RQ + [f"all({_DS}!=0 for q in range(self.N) for j in range(self.N))", "self.total_node_weight!=0"],
+        call_facts=_NSI_CF,
+        ensures=["result*(self.total_node_weight*self.total_node_weight)=="
+                 f"fsum(lambda q: self.node_weights[q]*fsum(lambda j: 1.0/{_DS}*self.node_weights[j], self.N), self.N)"],
+        checks=("shape", "bounds"))
+_c.region = "body"
+_c.required_asserts = []
+_c.rtc_py = True
+_c = _K("Network.nsi_global_clustering[formula]", _NW, lang="py", func="Network.nsi_global_clustering", props=("C03", "C02"),
+        py_mode=True, vectors=True,
+        inputs={"CL": "arr:float64:1", "self.node_weights": "arr:float64:1", "self.total_node_weight": "float", "self.N": "int",
+                "self.directed": "bool"},
+        requires=["self.N>=1", "shape(CL,0)==self.N", "shape(self.node_weights,0)==self.N", "self.total_node_weight!=0",
+                  "self.directed==0"],
+        call_facts={"self.nsi_local_clustering": {"returns": "arr:float64:1", "ensures": ["same_array(result, CL)", "shape(result,0)==self.N"]}},
+        ensures=["result*self.total_node_weight==fsum(lambda q: CL[q]*self.node_weights[q], self.N)"],
+        checks=("shape", "bounds"))
+_c.region = "body"
+_c.required_asserts = []
+_c.rtc_py = True
